@@ -148,6 +148,34 @@ def block_cosim(src, std="f2008", ignore_comments=True, process_directives=False
     return out, info
 
 
+def sub_cosim(rep, tier, mod, model, nq, nt, extra=(), timeout=3000):
+    """run a slice's co-simulation script (python -m fv.<mod> --seed S --n N) in a sub-process;
+    a disagreement between the Lean model and the real code is a broken correspondence
+    (reported with no-failing-input-found unless a direct stream of the check finds an input)"""
+    import subprocess
+    import time
+    from fv import common
+    n = nt if tier == "thorough" else nq
+    t0 = time.time()
+    try:
+        r = subprocess.run([common.PY, "-m", "fv." + mod, "--seed", str(rep.seed), "--n", str(n)] + list(extra),
+                           cwd=common.VERIF, capture_output=True, text=True, timeout=timeout)
+        out, err, rc = r.stdout, r.stderr, r.returncode
+    except subprocess.TimeoutExpired as e:
+        out, err, rc = (e.stdout or b"").decode("utf8", "replace") if isinstance(e.stdout, bytes) else (e.stdout or ""), "timeout", 124
+    tail = [l for l in out.splitlines() if l.strip()][-8:]
+    rep.coverage[mod] = {"n": n, "seconds": round(time.time() - t0, 1), "tail": [l[:200] for l in tail]}
+    rep.coverage["cosim_cases"] = int(rep.coverage.get("cosim_cases", 0)) + n
+    ok = rc == 0 and ("RESULT: FAIL" not in out)
+    if not ok:
+        rep.violation("correspondence:" + model,
+                      "model %s and the real code disagree (python -m fv.%s --seed %d --n %d, exit %d): %s" % (
+                          model, mod, rep.seed, n, rc, " | ".join(tail[-4:])[:600]),
+                      {"command": "cd /verif && %s -m fv.%s --seed %d --n %d %s" % (common.PY, mod, rep.seed, n, " ".join(extra)),
+                       "stdout": out[-4000:], "stderr": err[-2000:]}, no_input=True)
+    return ok
+
+
 def reader_cosim(src, mode="free", ic=(True, False), omp=False, pd=False, dirs=(), fs=(), case=None):
     """Reader model M-B (Fp.Reader) against the real reader on `src`: the whole item stream
     (kind, text, label, construct name, span, comment/cpp/include items, linecount).
